@@ -66,9 +66,9 @@ func errCheckedAt(u *ssa.BasicBlock, errv ssa.Value) bool {
 			continue
 		}
 		var other ssa.Value
-		if be.X == errv {
+		if be.X == errv || spilledCopyOf(be.X, errv) {
 			other = be.Y
-		} else if be.Y == errv {
+		} else if be.Y == errv || spilledCopyOf(be.Y, errv) {
 			other = be.X
 		} else {
 			continue
@@ -81,6 +81,31 @@ func errCheckedAt(u *ssa.BasicBlock, errv ssa.Value) bool {
 		}
 	}
 	return false
+}
+
+// spilledCopyOf: v is a load of a local cell (a named result or a captured
+// variable) into which src was stored earlier in the same block, with no other
+// store to the cell in between: "x, err := f(); if err != nil" where err is a
+// named result that a deferred closure captures.
+func spilledCopyOf(v, src ssa.Value) bool {
+	ld, ok := v.(*ssa.UnOp)
+	if !ok || ld.Op != token.MUL {
+		return false
+	}
+	al, ok := ld.X.(*ssa.Alloc)
+	if !ok {
+		return false
+	}
+	var last ssa.Value
+	for _, ins := range ld.Block().Instrs {
+		if ins == ssa.Instruction(ld) {
+			break
+		}
+		if st, ok := ins.(*ssa.Store); ok && st.Addr == ssa.Value(al) {
+			last = st.Val
+		}
+	}
+	return last == src
 }
 
 func valueNonNilAt(u *ssa.BasicBlock, v ssa.Value) bool {
